@@ -23,6 +23,7 @@ def run(rep, idx, tier):
     rep.require("C05.8", 3)
     rep.require("C05.9", 3)
     rep.require("C05.10", 2)
+    rep.require("C05.11", 1)
     from .c19 import identity_comparisons
     identity_comparisons(rep, idx, rule="C05.10", classes=["Multiplexer"])
     from . import glue as _g
@@ -86,6 +87,7 @@ def run(rep, idx, tier):
     overlaps_taint(rep, idx)
     from . import glue
     glue.shadow_hash(rep, idx, "C05.8")
+    glue.shadow_give_up_bound(rep, idx, "C05.11")
     glue.chunk_width(rep, "C05.9", idx, c, r.SH)
 
 
